@@ -332,9 +332,9 @@ WITNESSES = [
      "old": "\t\t    pdu->ver < rtr_socket->version) {", "new": "\t\t    pdu->ver != rtr_socket->version) {"},
     {"id": "C13.w2-flag-never-cleared", "rule": "C13.R2", "file": RT,
      "old": "\t\t\trtr_socket->has_received_pdus = false;\n\n\t\t\t// old pfx_record", "new": "\n\t\t\t// old pfx_record"},
-    {"id": "C13.w3-version-test-after-payload", "rule": "C13.R3", "file": PK,
-     "old": "\tif (header.ver != rtr_socket->version && header.type != ERROR) {\n\t\terror = UNEXPECTED_PROTOCOL_VERSION;\n\t\tgoto error;\n\t}\n\n\t// receive packet payload\n\tconst unsigned int remaining_len = header.len - sizeof(header);\n",
-     "new": "\t// receive packet payload\n\tconst unsigned int remaining_len = header.len - sizeof(header);\n\tif (remaining_len == 0 && header.ver != rtr_socket->version && header.type != ERROR) {\n\t\terror = UNEXPECTED_PROTOCOL_VERSION;\n\t\tgoto error;\n\t}\n"},
+    {"id": "C13.w3-version-test-only-for-empty-payload", "rule": "C13.R3", "file": PK,
+     "old": "\tif (header.ver != rtr_socket->version && header.type != ERROR) {\n\t\terror = UNEXPECTED_PROTOCOL_VERSION;\n\t\tgoto error;\n\t}\n",
+     "new": "\tif (header.len == sizeof(header) && header.ver != rtr_socket->version && header.type != ERROR) {\n\t\terror = UNEXPECTED_PROTOCOL_VERSION;\n\t\tgoto error;\n\t}\n"},
     {"id": "C13.w4-undo-F6-closed-is-fatal", "rule": "C13.R4", "file": PK,
      "old": "\t} else if (error == TR_CLOSED) {\n\t\tRTR_DBG1(\"connection closed by the cache\");\n\t\treturn TR_CLOSED;\n\t} else if (error == CORRUPT_DATA) {",
      "new": "\t} else if (error == CORRUPT_DATA) {"},
